@@ -197,6 +197,17 @@ def apply_model(spec, mods):
                     j += 1
         else:
             expanded.append((mid, m))
+    # a patch whose get_asm returns None declines: "no insertion takes place".  A declined
+    # replacement keeps the range it would have replaced (spec["declined_rep_deletes"] selects the
+    # other reading, the statement does not say)
+    def _declined(m):
+        return m["op"] in ("ins", "rep") and isinstance(m.get("p"), list) and any(T(t)[0] == "none" for t in m["p"])
+
+    mods = [
+        ({"op": "del", "b": m["b"], "k": m["k"], "n": m["n"] if (m["op"] == "rep" and spec.get("declined_rep_deletes")) else 0} if _declined(m) else m)
+        for m in mods
+    ]
+    expanded = [(mid, (mods[mid] if m is not None and m.get("op") != "scope" and "b" in m and mods[mid].get("b") == m.get("b") and _was_declined(mods[mid], m) else m)) for mid, m in expanded]
     # ---- insertions: fill slots in registration order
     for mid, m in expanded:
         if m["op"] not in ("ins", "rep"):
@@ -286,6 +297,10 @@ def _emptied(toks, bname):
         elif inside and t["t"] == "ins" and not t.get("dead"):
             return False
     return inside
+
+
+def _was_declined(new, old):
+    return new is not old and new.get("op") == "del" and old.get("op") in ("ins", "rep")
 
 
 def expand_delfunc(spec, mods):
@@ -639,7 +654,8 @@ def patch_text(isa_, patch):
 def make_patch(isa_, patch, log=None, fault=None, constraints=None):
     from gtirb_rewriting import Constraints, Patch
 
-    text = patch_text(isa_, patch)
+    declined = any(tuple(pt)[0] == "none" for pt in patch)
+    text = None if declined else patch_text(isa_, patch)
 
     class P(Patch):
         def get_asm(self, ctx):
